@@ -209,8 +209,8 @@ func ReactScenarios() []History {
 		eb(1),
 		{Name: "Respond", Signer: "p1", Rid: rid(2, 1, 2, 0), Kind: "bad"},
 	}
-	// a call to p2 in every tenth of a second from 1.0 s to 3.0 s
-	for i := 0; i < 21; i++ {
+	// a call to p2 in every tenth of a second from 1.0 s to 3.2 s
+	for i := 0; i < 31; i++ {
 		ops = append(ops, Ev{Name: "Call", Signer: "c2", Svc: "s1", Provs: []string{"p2"}, Cap: 10, Timeout: 1}, eb(1))
 	}
 	add("fractions-of-a-unit-and-of-a-second", smallParams(), map[string]int64{"c2": 400}, ops...)
